@@ -34,6 +34,7 @@ void h_scanComment(void)
   VERIF_ASSUME(XMLCHAR['-'] && XMLCHAR['>']);   /* '-' and '>' are Chars (production [2]; proved of the real tables in chartab_*) */
   for (XMLSize_t k = 0; k < NIN; k++) VERIF_ASSUME(k >= LEN || INPUT.a[k] != 0);   /* 0 is the reader's end-of-input value */
   POS = 0; ERR_COUNT = 0; ERR_FATAL_COUNT = 0; DOC_EVENTS = 0; OUT_OVERFLOW = 0; verif_thrown = 0;
+  assume_surrogates_not_char();
   XMLScanner_scanComment();
   VERIF_CANARY("after call");
 
@@ -47,7 +48,7 @@ void h_scanComment(void)
     if (c >= 0xD800 && c <= 0xDBFF) {
       if (i + 1 < LEN && INPUT.a[i + 1] >= 0xDC00 && INPUT.a[i + 1] <= 0xDFFF) { text[clen++] = c; text[clen++] = INPUT.a[i + 1]; i += 2; continue; }
       bad = 1;
-    } else if (!XMLCHAR[c]) bad = 1;   /* a lone trail surrogate is rejected because no surrogate is in the Char table (chartab_*) */
+    } else if ((c >= 0xDC00 && c <= 0xDFFF) || !XMLCHAR[c]) bad = 1;
     text[clen++] = c; i++;
   }
   if (wf) {
